@@ -72,9 +72,25 @@ Definition ryu_parts (m : Z) : Z * Z :=
   let kk := ndigits c + k in
   if (0 <=? k) && (kk <=? 16) then (c * 10 ^ (k + 1), -1) else (c, k).
 
-(** compact JSON text of a value ([serde_json::to_string]); floats are written positionally here,
-    which is NOT ryu's layout — only reached for array/object payload values, which no schema type
-    accepts (see notes). *)
+(** ryu's [format64] (what serde_json::to_string writes for a finite f64) *)
+Definition ryu_text (b : Z) : bytes :=
+  let m := f64_mag b in
+  let sgn := if f64_neg b then [45%N] else [] in
+  if m =? 0 then sgn ++ [48; 46; 48]%N
+  else
+    let '(c, k) := shortest_digits m in
+    let ds := dec_of_Z c in
+    let len := Z.of_nat (length ds) in
+    let kk := len + k in
+    if (0 <=? k) && (kk <=? 16) then sgn ++ ds ++ zeros (Z.to_nat k) ++ [46; 48]%N
+    else if (0 <? kk) && (kk <=? 16) then
+      sgn ++ firstn (Z.to_nat kk) ds ++ [46%N] ++ skipn (Z.to_nat kk) ds
+    else if (-5 <? kk) && (kk <=? 0) then sgn ++ [48; 46]%N ++ zeros (Z.to_nat (- kk)) ++ ds
+    else if len =? 1 then sgn ++ ds ++ [101%N] ++ dec_of_Z (kk - 1)
+    else sgn ++ firstn 1 ds ++ [46%N] ++ skipn 1 ds ++ [101%N] ++ dec_of_Z (kk - 1).
+
+(** compact JSON text of a value ([serde_json::to_string]) — only reached for array/object payload
+    values, which no schema type accepts. *)
 Fixpoint json_text (v : json) : bytes :=
   match v with
   | JNull => kw_null
@@ -82,7 +98,7 @@ Fixpoint json_text (v : json) : bytes :=
   | JBool false => kw_false
   | JU64 n => dec_of_Z n
   | JI64 z => dec_of_Z z
-  | JF64 b => display_f64 b
+  | JF64 b => ryu_text b
   | JStr s => quote s
   | JArr l =>
       (91%N :: (fix go (l : list json) (first : bool) : bytes :=
@@ -522,3 +538,44 @@ Definition projection (cols : list bytes) (ret : option (list bytes)) (schema_fi
 Definition project_row {A : Type} (d : A) (idx : list nat) (row : list A) : list A :=
   map (fun i => nth i row d) idx.
 Definition project_cols (idx : list nat) (cols : list bytes) : list bytes := project_row [] idx cols.
+
+(** ---- which columns a selection loads: SelectionProjection::compute (projection/strategies.rs)
+    and ProjectionColumns (first occurrence wins) ---- *)
+Fixpoint dedup_acc (seen : list bytes) (l : list bytes) : list bytes :=
+  match l with
+  | [] => []
+  | x :: r => if mem_bytes x seen then dedup_acc seen r else x :: dedup_acc (x :: seen) r
+  end.
+Definition dedup (l : list bytes) : list bytes := dedup_acc [] l.
+Definition event_id_name : bytes := nth 3 core_fields [].
+Definition is_core (f : bytes) : bool := mem_bytes f core_fields.
+
+(** the RETURN entries that are core or schema fields; the code collects them into a HashSet *)
+Definition requested (ret fields : list bytes) : list bytes :=
+  filter (fun f => is_core f || mem_bytes f fields) ret.
+
+(** With a non-empty RETURN list: core fields, the filter columns (sorted), then the requested
+    names in the ITERATION ORDER OF A HashSet — [hash_order], some arrangement of the distinct
+    requested names, different on every call — then event_id. *)
+Definition selection_columns (filter_cols hash_order : list bytes) : list bytes :=
+  dedup (core_fields ++ filter_cols ++ hash_order ++ [event_id_name]).
+(** without RETURN: all schema fields, sorted — deterministic *)
+Definition selection_columns_all (filter_cols fields_sorted : list bytes) : list bytes :=
+  dedup (core_fields ++ filter_cols ++ fields_sorted ++ [event_id_name]).
+
+(** One output row of a flow.  The source fills the row in [cols_src] order; the batch schema that
+    names the columns and feeds compute_return_projection is [cols_schema].  The segment flow
+    computes the column list once ([cols_src = cols_schema]); the memtable flow computes it twice
+    (build_memtable_flow, then MemTableSource::run). *)
+Definition flow_row {A : Type} (d : A) (cols_schema cols_src : list bytes) (ret : option (list bytes))
+           (fields : list bytes) (ev : bytes -> A) : list (bytes * A) :=
+  let idx := projection cols_schema ret fields in
+  combine (project_cols idx cols_schema) (project_row d idx (map ev cols_src)).
+
+(** the requested payload columns whose position depends on the HashSet order *)
+Definition order_dependent (filter_cols ret fields : list bytes) : list bytes :=
+  filter (fun f => negb (is_core f) && negb (mem_bytes f filter_cols)) (dedup (requested ret fields)).
+(** known class ReturnColumnsMislabelledInMemory: rows served by the memtable flow under a RETURN
+    list with at least two order-dependent columns *)
+Definition return_mislabel_possible (l : layout) (filter_cols ret fields : list bytes) : bool :=
+  in_memory l && (2 <=? Z.of_nat (length (order_dependent filter_cols ret fields))).
